@@ -44,14 +44,14 @@ func opt(n N) []N {
 }
 
 // expressions
-func Num(i int) N            { return N{"k": "num", "v": N{"c": "int", "v": i}} }
-func Str(s string) N         { return N{"k": "str", "s": units(s)} }
-func Bool(b bool) N          { return N{"k": "bool", "b": b} }
-func Null() N                { return N{"k": "null"} }
-func This() N                { return N{"k": "this"} }
-func Id(n string) N          { return N{"k": "id", "n": units(n)} }
-func Un(op string, e N) N    { return N{"k": "un", "op": op, "e": e} }
-func Undefined() N           { return Un("void", Num(0)) }
+func Num(i int) N                    { return N{"k": "num", "v": N{"c": "int", "v": i}} }
+func Str(s string) N                 { return N{"k": "str", "s": units(s)} }
+func Bool(b bool) N                  { return N{"k": "bool", "b": b} }
+func Null() N                        { return N{"k": "null"} }
+func This() N                        { return N{"k": "this"} }
+func Id(n string) N                  { return N{"k": "id", "n": units(n)} }
+func Un(op string, e N) N            { return N{"k": "un", "op": op, "e": e} }
+func Undefined() N                   { return Un("void", Num(0)) }
 func Upd(op string, pre bool, e N) N { return N{"k": "upd", "op": op, "pre": pre, "e": e} }
 func Bin(op string, l, r N) N {
 	if op == "&&" || op == "||" {
@@ -62,13 +62,13 @@ func Bin(op string, l, r N) N {
 	}
 	return N{"k": "bin", "op": op, "l": l, "r": r}
 }
-func Cond(t, a, b N) N          { return N{"k": "cond", "t": t, "a": a, "b": b} }
-func Asg(op string, l, r N) N   { return N{"k": "asg", "op": op, "l": l, "r": r} }
-func Dot(o N, n string) N       { return N{"k": "dot", "o": o, "n": units(n)} }
-func Idx(o, p N) N              { return N{"k": "idx", "o": o, "p": p} }
-func Call(f N, args ...N) N     { return N{"k": "call", "f": f, "args": list(args...)} }
-func New(f N, args ...N) N      { return N{"k": "new", "f": f, "args": list(args...)} }
-func Arr(el ...N) N             { return N{"k": "arr", "el": list(el...)} }
+func Cond(t, a, b N) N        { return N{"k": "cond", "t": t, "a": a, "b": b} }
+func Asg(op string, l, r N) N { return N{"k": "asg", "op": op, "l": l, "r": r} }
+func Dot(o N, n string) N     { return N{"k": "dot", "o": o, "n": units(n)} }
+func Idx(o, p N) N            { return N{"k": "idx", "o": o, "p": p} }
+func Call(f N, args ...N) N   { return N{"k": "call", "f": f, "args": list(args...)} }
+func New(f N, args ...N) N    { return N{"k": "new", "f": f, "args": list(args...)} }
+func Arr(el ...N) N           { return N{"k": "arr", "el": list(el...)} }
 func Obj(kv ...any) N { // key string, value N pairs
 	pr := []N{}
 	for i := 0; i+1 < len(kv); i += 2 {
@@ -89,7 +89,9 @@ func Fn(name string, params []string, body ...N) N {
 	}
 	return N{"k": "fn", "name": units(name), "params": ps, "body": list(body...)}
 }
-func EvalCall(direct bool, prog ...N) N { return N{"k": "eval", "direct": direct, "prog": list(prog...)} }
+func EvalCall(direct bool, prog ...N) N {
+	return N{"k": "eval", "direct": direct, "prog": list(prog...)}
+}
 
 // EvalVia is CALLEE("program text"): the callee is an arbitrary expression, so whether this is a
 // direct eval, an indirect one or an ordinary call is decided at run time (15.1.2.1.1).
@@ -101,21 +103,21 @@ func EvalVia(callee N, prog ...N) N {
 func Var(name string, init N) N {
 	return N{"k": "var", "decls": []N{{"n": units(name), "init": opt(init)}}}
 }
-func Expr(e N) N             { return N{"k": "expr", "e": e} }
-func Block(body ...N) N      { return N{"k": "block", "body": list(body...)} }
-func If(t, a, b N) N         { return N{"k": "if", "t": t, "a": a, "b": opt(b)} }
+func Expr(e N) N        { return N{"k": "expr", "e": e} }
+func Block(body ...N) N { return N{"k": "block", "body": list(body...)} }
+func If(t, a, b N) N    { return N{"k": "if", "t": t, "a": a, "b": opt(b)} }
 func For(init, test, update, body N) N {
 	return N{"k": "for", "init": opt(init), "test": opt(test), "update": opt(update), "body": body}
 }
 func ForIn(decl bool, name string, obj, body N) N {
 	return N{"k": "forin", "decl": decl, "n": units(name), "obj": obj, "body": body}
 }
-func While(t, body N) N      { return N{"k": "while", "t": t, "body": body} }
-func DoWhile(body, t N) N    { return N{"k": "dowhile", "body": body, "t": t} }
-func Break(l string) N       { return N{"k": "break", "l": units(l)} }
-func Continue(l string) N    { return N{"k": "continue", "l": units(l)} }
-func Return(e N) N           { return N{"k": "return", "e": opt(e)} }
-func Throw(e N) N            { return N{"k": "throw", "e": e} }
+func While(t, body N) N   { return N{"k": "while", "t": t, "body": body} }
+func DoWhile(body, t N) N { return N{"k": "dowhile", "body": body, "t": t} }
+func Break(l string) N    { return N{"k": "break", "l": units(l)} }
+func Continue(l string) N { return N{"k": "continue", "l": units(l)} }
+func Return(e N) N        { return N{"k": "return", "e": opt(e)} }
+func Throw(e N) N         { return N{"k": "throw", "e": e} }
 func Try(block []N, param string, handler []N, hasH bool, fin []N, hasF bool) N {
 	return N{"k": "try", "block": list(block...), "param": units(param), "handler": list(handler...), "hasH": hasH, "fin": list(fin...), "hasF": hasF}
 }
